@@ -5,6 +5,7 @@ use crate::oracle::{frames, json as sjson};
 use crate::props::common;
 use crate::util::{fnv, guarded, hexs, msg_class, short_loc, Args, Report, Rng};
 use rs1090::decode::{Message, SensorMetadata, TimedMessage};
+use rs1090::prelude::DekuContainerRead;
 use serde_json::json;
 
 /// shape label that does not depend on free bits (so that signatures are narrow but stable)
@@ -213,6 +214,78 @@ fn shapes() -> Vec<(String, Box<dyn Fn(&mut Rng) -> Vec<u8>>)> {
     v
 }
 
+/// End-to-end pass through the decode1090 executable (its main() serialises with `.unwrap()`): a batch of frames of
+/// every shape goes in as JSON lines; every frame the library accepts must come out exactly once, in input order, as
+/// one strict JSON object per line carrying the input frame, timestamp, df and icao24. A crash of the tool (e.g. an
+/// accepted frame that cannot be serialised) is a violation with the batch as witness.
+fn cli_batch(r: &mut Report, cli: &str, frames_in: &[Vec<u8>], shard: u64) {
+    use std::io::Write;
+    let dir = std::env::var("RSMON_TMP").unwrap_or_else(|_| "/tmp".into());
+    let path = format!("{dir}/c07cli.{}.{shard}.jsonl", std::process::id());
+    let mut seen = std::collections::HashSet::new();
+    let frames: Vec<&Vec<u8>> = frames_in.iter().filter(|f| seen.insert(fnv(f))).collect();
+    {
+        let mut f = std::io::BufWriter::new(std::fs::File::create(&path).unwrap());
+        for (i, fr) in frames.iter().enumerate() {
+            let ts = 1_700_000_000.0 + i as f64;
+            writeln!(f, "{}", json!({"timestamp": ts, "frame": hexs(fr), "metadata": [{"system_timestamp": ts, "serial": 7}]})).unwrap();
+        }
+    }
+    let out = std::process::Command::new(cli).arg("-i").arg(&path).arg("-d").arg("0").output();
+    let _ = std::fs::remove_file(&path);
+    let rp = |k: usize| json!({"origin": "decode1090-cli", "frame": hexs(frames[k.min(frames.len() - 1)]), "batch": frames.len()});
+    let out = match out {
+        Ok(o) => o,
+        Err(e) => {
+            r.class(&format!("cli:not-run:{e}"));
+            return;
+        }
+    };
+    r.evaluations += frames.len() as u64;
+    // what the library accepts (the tool decodes with from_bytes)
+    let expected: Vec<usize> = (0..frames.len()).filter(|k| guarded(|| Message::from_bytes((frames[*k].as_slice(), 0)).is_ok()).unwrap_or(false)).collect();
+    let text = String::from_utf8_lossy(&out.stdout);
+    let lines: Vec<&str> = text.lines().filter(|l| !l.trim().is_empty()).collect();
+    if !out.status.success() {
+        // the record after the last one printed is the one that killed the tool
+        let culprit = expected.get(lines.len()).copied().unwrap_or(0);
+        let err = String::from_utf8_lossy(&out.stderr);
+        let what = err.lines().find(|l| l.contains("panicked") || l.contains("Error")).unwrap_or("").chars().take(160).collect::<String>();
+        let shape = guarded(|| Message::try_from(frames[culprit].as_slice()).ok().map(|m| shape_of(&m))).ok().flatten().unwrap_or_default();
+        r.violation(&format!("C07:cli:crash:{shape}"), format!("decode1090 exited with {:?} after {} of {} records, next input frame {} ({shape}): {what}", out.status.code(), lines.len(), expected.len(), hexs(frames[culprit])), rp(culprit));
+        return;
+    }
+    if lines.len() != expected.len() {
+        r.violation("C07:cli:record-count", format!("decode1090 printed {} records for {} accepted frames", lines.len(), expected.len()), rp(0));
+        return;
+    }
+    for (l, k) in lines.iter().zip(&expected) {
+        let fr = frames[*k];
+        let tree = match sjson::parse(l) {
+            Err(e) => {
+                r.violation(&format!("C07:cli:malformed:{}", e.split(' ').take(2).collect::<Vec<_>>().join("_")), format!("decode1090 line for {} rejected by a strict parser: {e}: {}", hexs(fr), &l[..l.len().min(200)]), rp(*k));
+                continue;
+            }
+            Ok(t) => t,
+        };
+        if tree.get("frame").and_then(|v| v.as_str()) != Some(hexs(fr).as_str()) {
+            r.violation("C07:cli:frame", format!("decode1090 record {:?} where input frame {} was due", tree.get("frame").and_then(|v| v.as_str()), hexs(fr)), rp(*k));
+            continue;
+        }
+        if tree.get("timestamp").and_then(|v| v.as_f64()) != Some(1_700_000_000.0 + *k as f64) {
+            r.violation("C07:cli:timestamp", format!("decode1090 record of {} has timestamp {:?}", hexs(fr), tree.get("timestamp").and_then(|v| v.as_f64())), rp(*k));
+        }
+        if let Some((df, addr)) = common::carried_address(fr) {
+            let got_df = tree.get("df").and_then(|v| v.as_str().map(|s| s.to_string()));
+            let got_icao = tree.get("icao24").and_then(|v| v.as_str().map(|s| s.to_string()));
+            if got_df.as_deref() != Some(df.to_string().as_str()) || got_icao.as_deref() != Some(format!("{addr:06x}").as_str()) {
+                r.violation(&format!("C07:cli:df-icao24:DF{df}"), format!("decode1090 shows df={got_df:?} icao24={got_icao:?} for {} (DF{df}, {addr:06x})", hexs(fr)), rp(*k));
+            }
+        }
+        r.class("cli:record-ok");
+    }
+}
+
 pub fn run(a: &Args, r: &mut Report) {
     r.rule = "shape space enumerated completely: DF 0..31 x (DF18: CF 0..7) x TC 0..31 x 3-bit subtype x (TC31: version 0..7) and DF20/21 x register hypothesis (x BDS 3,0 threat type 0..3), each shape filled N times with boundary-biased bits (N = 6 quick, 400 thorough); plus random structured frames. distinct_nontrivial = distinct ACCEPTED frames whose JSON passed every check".into();
     if let Some(p) = &a.replay {
@@ -224,18 +297,34 @@ pub fn run(a: &Args, r: &mut Report) {
     let sh = shapes();
     let reps = ((if a.thorough() { 400.0 } else { 6.0 }) * a.scale).max(1.0) as u64;
     let mut accepted_shapes = 0u64;
+    let cli = if a.asan { None } else { std::env::var("RSMON_DECODE1090").ok() };
+    let mut cli_frames: Vec<Vec<u8>> = vec![];
     for (i, (label, gen)) in sh.iter().enumerate() {
         if (i as u64) % a.nshards != a.shard {
             continue;
         }
         let mut acc = false;
-        for _ in 0..reps {
+        for k in 0..reps {
             let f = gen(&mut rng);
             acc |= check_frame(r, &f, label);
+            if cli.is_some() && k < 3 {
+                cli_frames.push(f);
+            }
         }
         if acc {
             accepted_shapes += 1;
         }
+    }
+    if let Some(cli) = &cli {
+        for _ in 0..a.budget(20_000, 1_000_000) {
+            let df = *rng.pick(&[17u8, 18, 20, 21, 4, 5, 0, 16, 11, 19, 24]);
+            cli_frames.push(common::structured(&mut rng, df));
+        }
+        // batches of 400: a crash costs one batch and names its frame
+        for (b, chunk) in cli_frames.chunks(400).enumerate() {
+            cli_batch(r, cli, chunk, b as u64);
+        }
+        r.assumptions.push("decode1090 -i/-d 0 is observed from outside; 'accepted' for that pass = Message::from_bytes succeeds, as in the tool".into());
     }
     r.extra.insert("shapes_enumerated".into(), json!(sh.len()));
     r.class_n("shapes:with-an-accepted-frame", accepted_shapes);
@@ -249,6 +338,9 @@ pub fn run(a: &Args, r: &mut Report) {
         let mut mand: Vec<String> = ["serialised:DF0", "serialised:DF4", "serialised:DF5", "serialised:DF11", "serialised:DF16", "serialised:DF19", "serialised:DF24-31", "serialised:DF17:BDS05", "serialised:DF18:BDS05", "serialised:DF17:TC19:st1", "serialised:DF17:TC19:st3", "serialised:DF17:TC31:airborne", "serialised:DF17:TC31:surface", "serialised:DF17:TC28", "serialised:DF17:TC29", "serialised:DF20", "serialised:DF21"].iter().map(|s| s.to_string()).collect();
         for tc in [0, 1, 2, 3, 4, 5, 6, 7, 8, 23, 24, 30] {
             mand.push(format!("serialised:DF17:TC{tc}"));
+        }
+        if cli.is_some() {
+            mand.push("cli:record-ok".into());
         }
         r.extra.insert("mandatory".into(), json!(mand));
     }
